@@ -11,7 +11,7 @@ and emits the exact rationals.  This module builds the real BayesianProblems, ca
 """
 META = {
     "claimed": True,
-    "engine": "LinGauss.tla",
+    "engine": "LinGauss.tla + MapProc.tla",
     "text": ("TLC checks on every configuration of the bounded instance (A up to 3x3, 16 input forms of noise and prior Gaussian, "
              "GMRF priors, scalar/vector means, identity-like, step-expansion and scaling geometries, matrix- and function-based "
              "models) that the direct route's Tarantola formula equals the posterior mean Lambda^-1 rhs (push-through identity), "
@@ -25,7 +25,12 @@ META = {
              "(compute_cov) / ReAssign(field) and checks ReassignIsFresh (closed forms in every reachable state = those of a "
              "fresh problem with the values currently assigned; deviation StaleCovAfterReassign refuted); the harness walks "
              "these behaviours on ONE BayesianProblem (warm chain, assign-before-evaluate, partial reassignment) and compares "
-             "compute_cov / sqrtprec / log-density differences / MAP / ML / direct draws after every action."),
+             "compute_cov / sqrtprec / log-density differences / MAP / ML / direct draws after every action.  MapProc.tla: ONE "
+             "process, a LIST of chain-polynomial problems of different size (n = 1 .. 64, data and prior mean constructed from a "
+             "stationary point) solved by MAP / ML on the optimisation route by different BayesianProblem objects, every order "
+             "explored by TLC (action Call; invariant CallsIndependent: a call works under the iteration limit of its OWN problem; "
+             "deviation DefaultsLeakBetweenCalls refuted); every order is replayed in a fresh python process, each estimate is "
+             "judged by the spec's optimality conditions and must equal the outcome of the same call alone in a process."),
     "note": ("Bounded sizes (n, m <= 3), integer/dyadic lattice; optimisation route judged by the optimality conditions with "
              "tolerances tied to scipy's gtol=1e-5 (gradient <= 1e-4, no larger neighbour at distance 1e-2..1e-3), so only local "
              "optimality is asserted for non-convex polynomial posteriors; results flagged unsuccessful by the solver info are "
@@ -694,6 +699,168 @@ def check_reassign(ctx, groups):
 
 
 # --------------------------------------------------------------------------------------------------------------
+# ONE process, a LIST of problems of different size on the optimisation route (spec MapProc.tla)
+# --------------------------------------------------------------------------------------------------------------
+def _mp_funcs(k):
+    """forward model, Jacobian, objective and gradients of one call of MapProc.tla (chain polynomial, data and prior mean
+    from the spec's exact rationals)"""
+    L = _L()
+    n, pe, px = int(k["n"]), float(k["pe"]), float(k["px"])
+    y, mu = L.qnp(k["y_q"]), L.qnp(k["mu_q"])
+
+    def fwd(x):
+        x = np.asarray(x, dtype=float).ravel()
+        out = np.empty(n)
+        out[:-1] = x[1:] - x[:-1] ** 2
+        out[-1] = x[-1]
+        return out
+
+    def jac(x):
+        x = np.asarray(x, dtype=float).ravel()
+        J = np.zeros((n, n))
+        for i in range(n - 1):
+            J[i, i] = -2.0 * x[i]
+            J[i, i + 1] = 1.0
+        J[n - 1, n - 1] = 1.0
+        return J
+    glik = lambda z: -pe * jac(z).T @ (y - fwd(z))
+    gphi = lambda z: glik(z) + px * (np.asarray(z, dtype=float) - mu)
+    plik = lambda z: 0.5 * pe * float(np.sum((y - fwd(z)) ** 2))
+    phi = lambda z: plik(z) + 0.5 * px * float(np.sum((np.asarray(z, dtype=float) - mu) ** 2))
+    return {"n": n, "pe": pe, "px": px, "y": y, "mu": mu, "fwd": fwd, "jac": jac, "glik": glik, "gphi": gphi, "plik": plik, "phi": phi}
+
+
+def _mp_run_list(calls):
+    """Run the calls of one list one after the other IN THIS PROCESS, a NEW BayesianProblem for every call.  One record per call:
+    {"outcome": "error" | "estimate", "x", "success", "nit", "error"}"""
+    import cuqi
+    L = _L()
+    out = []
+    for k in calls:
+        f = _mp_funcs(k)
+        n = f["n"]
+        rec = {"name": k["name"]}
+        try:
+            with L.quiet():
+                model = cuqi.model.Model(lambda x, f=f: f["fwd"](x), range_geometry=n, domain_geometry=n, jacobian=lambda x, f=f: f["jac"](x))
+                x = cuqi.distribution.Gaussian(f["mu"], cov=1.0 / f["px"], name="x")
+                yd = cuqi.distribution.Gaussian(model(x), cov=1.0 / f["pe"], name="y")
+                BP = cuqi.problem.BayesianProblem(x, yd).set_data(y=f["y"])
+                x0 = np.array(k["x0"], dtype=float)
+                est = BP.MAP(x0=x0) if k["which"] == "MAP" else BP.ML(x0=x0)
+            info = getattr(est, "info", None)
+            rec.update(outcome="estimate", x=np.array(np.asarray(est, dtype=float).ravel()),
+                       success=None if not (isinstance(info, dict) and "success" in info) else bool(info["success"]),
+                       nit=int(info["nit"]) if isinstance(info, dict) and info.get("nit") is not None else None,
+                       message=str(info.get("message")) if isinstance(info, dict) else None)
+        except Exception as e:
+            rec.update(outcome="error", error=repr(e))
+        out.append(rec)
+    return out
+
+
+def _mp_child(path_in, path_out):
+    """entry point of the fresh process of one list (python -m cuqiverif.props.c15 <in> <out>)"""
+    import json, pickle
+    pickle.dump(_mp_run_list(json.load(open(path_in))), open(path_out, "wb"))
+
+
+def _mp_spawn(workdir, idx, calls):
+    import json, os, subprocess, sys
+    repo = os.environ.get("CUQIVERIF_REPO", "/repo")
+    here = os.path.dirname(os.path.dirname(os.path.dirname(os.path.abspath(__file__))))      # .../harness
+    pin, pout = os.path.join(workdir, "mapproc-%d.in.json" % idx), os.path.join(workdir, "mapproc-%d.out.pkl" % idx)
+    json.dump(calls, open(pin, "w"))
+    env = dict(os.environ, PYTHONPATH=here + os.pathsep + repo, OMP_NUM_THREADS="1", TQDM_DISABLE="1")
+    p = subprocess.run([sys.executable, "-m", "cuqiverif.props.c15", pin, pout], env=env, stdout=subprocess.PIPE,
+                       stderr=subprocess.STDOUT, text=True, timeout=900)
+    return p, pout
+
+
+def _mp_class(rec):
+    if rec["outcome"] == "error":
+        return "error"
+    return "flagged-unsuccessful" if rec.get("success") is False else "estimate"
+
+
+def _mp_judge(ctx, case, k, rec, sig):
+    """the optimality conditions of the spec at the returned point (as for the polynomial problems of part poly)"""
+    cls = _mp_class(rec)
+    _outcome(ctx, "mapproc/%s/%s" % (k["which"], cls))
+    if cls != "estimate":
+        return
+    f = _mp_funcs(k)
+    xm = rec["x"]
+    n = f["n"]
+    g = f["gphi"](xm) if k["which"] == "MAP" else f["glik"](xm)
+    obj = f["phi"] if k["which"] == "MAP" else f["plik"]
+    gn = float(np.linalg.norm(g))
+    dirs = []
+    for r in (1e-2, 1e-3):
+        for i in sorted(set((0, n // 2, n - 1))):
+            e = np.zeros(n)
+            e[i] = r
+            dirs += [e, -e]
+        dirs += [r * np.ones(n) / np.sqrt(n), -r * np.ones(n) / np.sqrt(n)]
+    worse = [d for d in dirs if obj(xm + d) < obj(xm) - gn * float(np.linalg.norm(d)) - 1e-12 * max(1.0, abs(obj(xm)))]
+    if xm.shape != (n,) or not np.all(np.isfinite(xm)) or np.max(np.abs(g)) > GTOL or worse:
+        ctx.mismatch(sig + "/optimality", case, "%s estimate of the chain problem is not a local maximiser (gradient of the spec's objective "
+                     "not ~ 0 or a nearby point has a larger density)" % k["which"],
+                     expected={"gradient": 0, "xstar": _L().qnp(k["xstar_q"])},
+                     observed={"x": xm, "max|gradient|": float(np.max(np.abs(g))) if g.size else None, "better_neighbours": len(worse)})
+    elif np.max(np.abs(xm - _L().qnp(k["xstar_q"]))) > 1e-3:
+        _outcome(ctx, "mapproc/%s/other-local-maximiser" % k["which"])
+
+
+def check_mapproc(ctx, cases, workdir, guard=True):
+    """cases: the behaviours of MapProc.tla (one per order of a list; singleton lists = every call alone).  Each one runs in a
+    FRESH python process.  Every estimate is judged by the spec's optimality conditions, and the outcome of a call inside a list
+    must be the outcome of the same call ALONE in a process (the spec's outcome is a function of the call's own problem)."""
+    import concurrent.futures, os, pickle
+    from cuqiverif.core import MachineryError
+    os.makedirs(workdir, exist_ok=True)
+    cases = sorted(cases, key=lambda c: (len(c["calls"]), [k["name"] for k in c["calls"]]))
+    with concurrent.futures.ThreadPoolExecutor(max_workers=8) as pool:
+        futs = [pool.submit(_mp_spawn, workdir, i, c["calls"]) for i, c in enumerate(cases)]
+        done = [f.result() for f in futs]
+    recs = []
+    for c, (p, pout) in zip(cases, done):
+        if p.returncode != 0 or not os.path.exists(pout):
+            raise MachineryError("the process of the list %s ended with code %s:\n%s" %
+                                 (">".join(k["name"] for k in c["calls"]), p.returncode, "\n".join(p.stdout.splitlines()[-12:])))
+        recs.append(pickle.load(open(pout, "rb")))
+    alone = {c["calls"][0]["name"]: (c["calls"][0], r[0]) for c, r in zip(cases, recs) if len(c["calls"]) == 1}
+    for c, rs in zip(cases, recs):
+        names = [k["name"] for k in c["calls"]]
+        for i, (k, r) in enumerate(zip(c["calls"], rs)):
+            sig = "mapproc/%s/%s/n=%d/pos=%d/after=%s" % (k["which"], k["name"], k["n"], i, "+".join(names[:i]) or "nothing")
+            ctx.case(("mapproc", tuple(names), i), nontrivial=len(names) > 1, facet="mapproc/%s" % ("alone" if len(names) == 1 else ("first" if i == 0 else "later")))
+            _mp_judge(ctx, dict(c, kind="mapproc"), k, r, sig)
+            if len(names) == 1 or k["name"] not in alone:
+                continue
+            ra = alone[k["name"]][1]
+            ca, cs = _mp_class(ra), _mp_class(r)
+            same = ca == cs and (ca == "error" or (ra["x"].shape == r["x"].shape and
+                                                    bool(np.all(np.abs(ra["x"] - r["x"]) <= 1e-9 * (1.0 + np.abs(ra["x"]))))))
+            if not same:
+                ctx.mismatch(sig + "/history", dict(c, kind="mapproc"),
+                             "%s of this problem depends on what was solved BEFORE in the process: alone in a fresh process the call gives "
+                             "%s (nit %s), after %s it gives %s (nit %s, %s)" % (k["which"], ca, ra.get("nit"), "+".join(names[:i]) or
+                                                                                 "nothing (but others follow)", cs, r.get("nit"), r.get("message")),
+                             expected={"outcome": ca, "x": ra.get("x")}, observed={"outcome": cs, "x": r.get("x"), "error": r.get("error")})
+    # vacuity: the optimiser must need more iterations on a large problem than the documented limit of a smaller one of its list
+    nits = {nm: r.get("nit") for nm, (k, r) in alone.items() if r.get("nit") is not None}
+    ctx.observe("mapproc_iterations_alone", nits)
+    sens = sorted(set((a["name"], b["name"]) for c in cases for a in c["calls"] for b in c["calls"]
+                      if a["name"] != b["name"] and nits.get(a["name"], 0) > b["doclimit"]))
+    ctx.observe("mapproc_limit_sensitive_pairs", ["%s (nit %d) > limit of %s" % (a, nits[a], b) for a, b in sens])
+    if guard and not ctx.violations and len(sens) < 2:
+        raise MachineryError("MapProc: the optimiser needs more iterations than the documented limit of a smaller problem of the same "
+                             "list for only %d pairs: the facet would be vacuous (%r)" % (len(sens), nits))
+    ctx.observations["mapproc_behaviours"] = len(cases)
+
+
+# --------------------------------------------------------------------------------------------------------------
 def _deviations(ctx, names):
     from cuqiverif.core import MachineryError
     from cuqiverif import tlc
@@ -724,6 +891,17 @@ def run(ctx):
     ctx.model_must_hold(res, "LinGauss.reassign")
     re_groups = _re_group(res.cases)
     tlc.cleanup(res)
+    res = ctx.tlc("MapProc", cfg="MapProc.%s.cfg" % ctx.tier, workers=4, timeout=900)
+    ctx.model_must_hold(res, "MapProc")
+    mp_cases = res.cases
+    tlc.cleanup(res)
+    res = ctx.tlc("MapProc", cfg="MapProc.dev_DefaultsLeakBetweenCalls.cfg", workers=1, timeout=600, expect_violation=True)
+    if res.violated != "CallsIndependent":
+        raise MachineryError("deviation DefaultsLeakBetweenCalls: expected TLC to violate CallsIndependent, got %r" % (res.violated,))
+    ctx.observations.setdefault("deviations_refuted_by_tlc", {})["DefaultsLeakBetweenCalls"] = "CallsIndependent"
+    tlc.cleanup(res)
+    if not mp_cases or not any(len(c["calls"]) > 1 for c in mp_cases):
+        raise MachineryError("MapProc emitted no list of several problems")
     if not map_cases or not poly_cases or not route_cases or not re_groups:
         raise MachineryError("no cases emitted by LinGauss (map %d, poly %d, route %d, reassign %d)" % (
             len(map_cases), len(poly_cases), len(route_cases), len(re_groups)))
@@ -744,7 +922,15 @@ def run(ctx):
         check_poly_case(ctx, c)
     check_routes(ctx, route_cases[0]["table"])
     check_reassign(ctx, re_groups)
+    import os
+    wdir = os.path.join(tlc.WORK, "MapProc-c15-%d" % os.getpid())
+    try:
+        check_mapproc(ctx, mp_cases, wdir)
+    finally:
+        tlc.cleanup(wdir)
     oc = ctx.observations.get("outcomes", {})
+    if not oc.get("mapproc/MAP/estimate") or not oc.get("mapproc/ML/estimate"):
+        raise MachineryError("vacuous run: no MAP / ML estimate on the lists of MapProc (%r)" % oc)
     if not any(k.startswith("MAP/estimate/direct") for k in oc) or not oc.get("sample/draws"):
         raise MachineryError("vacuous run: no configuration reached the closed-form MAP / direct sampling route (%r)" % oc)
     if not oc.get("reassign/MAP/estimate/direct") or not oc.get("reassign/sample/draws") or not oc.get("reassign/ML/estimate"):
@@ -760,9 +946,13 @@ def run(ctx):
     ctx.rule = ("one case per configuration emitted by TLC from LinGauss.tla (parts map, poly, route) with exact mu_post, Lambda^-1, x_ML; "
                 "non-trivial = distinct (configuration, call) among MAP / ML / direct sampling / polynomial MAP from two starts / route realisation; "
                 "part reassign: one case per (behaviour, action reached, observable) = distinct (configuration, order, field just assigned, "
-                "versions assigned, phase, observable)")
+                "versions assigned, phase, observable); MapProc: one case per (order of a list, position)")
     ctx.exhaustive = True
-    ctx.traces = len(map_cases) + len(pcs) + 1 + ctx.observations.get("reassign_behaviours", 0)
+    mpl = [c for c in mp_cases if len(c["calls"]) == 3]
+    if mpl:
+        ctx.sample({"case": {"kind": "mapproc", "behaviour": " . ".join("Call(%s)" % k["name"] for k in mpl[0]["calls"]),
+                             "calls": [{q: k[q] for q in ("name", "which", "n", "pe", "px", "limit")} for k in mpl[0]["calls"]]}})
+    ctx.traces = len(map_cases) + len(pcs) + 1 + ctx.observations.get("reassign_behaviours", 0) + len(mp_cases)
     ctx.assumptions += ["scipy BFGS / L-BFGS-B defaults (gtol 1e-5) define the tolerance of the optimisation route (gradient <= 1e-4 x scale)",
                         "sqrtcov convention cov = S S^T (code and tests/test_distribution.py; the docstring says S^T S)",
                         "an exception of MAP/ML/sample_posterior is an accepted outcome (property: 'the call fails instead of returning another point')",
@@ -771,7 +961,10 @@ def run(ctx):
                         "reassign: BayesianProblem conditions copies of the distributions it is given (Distribution._condition -> _make_copy), "
                         "so values are assigned to BP.prior, BP.likelihood.distribution and BP.likelihood.data (the objects the problem holds); "
                         "a refused assignment or a failing call after an assignment is an accepted outcome, another value is not",
-                        "reassign: log-densities are compared as differences between two points (normalisation belongs to C04)"]
+                        "reassign: log-densities are compared as differences between two points (normalisation belongs to C04)",
+                        "MapProc: every list runs in its own python process (sys.executable -m cuqiverif.props.c15); the optimiser is "
+                        "deterministic, so the outcome of a call inside a list is compared with the outcome of the same call alone "
+                        "in a process (relative 1e-9)"]
 
 
 def replay(ctx, case):
@@ -784,9 +977,24 @@ def replay(ctx, case):
         return check_poly_case(ctx, case)
     if kind == "reassign":
         return check_reassign_chain(ctx, case["states"], case["order"], case["perm"], case["rot"])
+    if kind == "mapproc":
+        from cuqiverif import tlc
+        import os
+        wdir = os.path.join(tlc.WORK, "MapProc-c15-replay-%d" % os.getpid())
+        try:
+            # the list itself and every call of it alone
+            lists = [{"kind": "mapproc", "calls": case["calls"]}] + [{"kind": "mapproc", "calls": [k]} for k in case["calls"]]
+            return check_mapproc(ctx, lists if len(case["calls"]) > 1 else lists[:1], wdir, guard=False)
+        finally:
+            tlc.cleanup(wdir)
     if kind == "route":
         from cuqiverif import tlc
         res = ctx.tlc("LinGauss", cfg="LinGauss.route.cfg", workers=1, timeout=600)
         table = res.cases[0]["table"]
         tlc.cleanup(res)
         return check_routes(ctx, table)
+
+
+if __name__ == "__main__":
+    import sys
+    _mp_child(sys.argv[1], sys.argv[2])
